@@ -865,3 +865,101 @@ func init() {
 		return res
 	}
 }
+
+// ---------------------------------------------------------------------------------------------
+// C08: the root document is held in memory, but a `$ref` that NAMES it (by file name, by a relative path from another
+// document, by its absolute URL) is a reference to a document like any other: when the loader refuses that location the
+// reference cannot be resolved - an error in strict mode, the `$ref` left in place when asked to continue.
+
+type rootRefusedInput struct {
+	Shape string `json:"shape"` // self-by-name | back-ref-sibling | back-ref-subdir | absolute-url
+}
+
+func rootRefusedGraph(in rootRefusedInput) (*exGraph, string) {
+	type m = map[string]interface{}
+	const rootURL = "file:///w/api/root.json"
+	root := m{"swagger": "2.0", "info": m{"title": "root", "version": "1"}, "paths": m{},
+		"definitions": m{"T": m{"type": "object", "description": "T of root"}}}
+	docs := m{rootURL: root}
+	var ref string
+	switch in.Shape {
+	case "self-by-name":
+		ref = "root.json#/definitions/T"
+		root["definitions"].(m)["U"] = m{"type": "object", "properties": m{"t": m{"$ref": ref}}}
+	case "absolute-url":
+		ref = rootURL + "#/definitions/T"
+		root["definitions"].(m)["U"] = m{"type": "array", "items": m{"$ref": ref}}
+	case "back-ref-sibling", "back-ref-subdir":
+		dir, back := "", "root.json"
+		if in.Shape == "back-ref-subdir" {
+			dir, back = "sub/", "../root.json"
+		}
+		ref = back + "#/definitions/T"
+		root["paths"] = m{"/a": m{"$ref": dir + "items.json#/paths/~1a"}}
+		docs["file:///w/api/"+dir+"items.json"] = m{"swagger": "2.0", "info": m{"title": "items", "version": "1"},
+			"paths": m{"/a": m{"get": m{"responses": m{"200": m{"description": "ok", "schema": m{"$ref": ref}}}}}}}
+	}
+	g := exFromGeneric(docs, rootURL)
+	g.Missing = []string{rootURL}
+	return g, ref
+}
+
+func checkRootRefused(in rootRefusedInput) string {
+	g, ref := rootRefusedGraph(in)
+	served := g.clone()
+	served.Missing = nil
+	if res := exWorkerRun(served.call("expand_spec", exOpts{})); !res.ok() {
+		return "" // the graph does not even expand when every document is served: nothing to compare
+	}
+	strict := exWorkerRun(g.call("expand_spec", exOpts{}))
+	if strict.Timeout || strict.Panic != "" {
+		return ""
+	}
+	if !strict.Err {
+		return fmt.Sprintf("no error although the `$ref` %q names a document the loader refuses (the root, by its location)", ref)
+	}
+	cont := exWorkerRun(g.call("expand_spec", exOpts{Cont: true}))
+	if cont.Timeout || cont.Panic != "" {
+		return ""
+	}
+	if cont.Err {
+		return fmt.Sprintf("ContinueOnError: an error is returned for the unresolvable `$ref` %q: %.200s", ref, cont.ErrText)
+	}
+	if exFindRefText(exDecode(cont.Out), func(r string) bool { return strings.HasSuffix(r, "#/definitions/T") }) == "" {
+		return fmt.Sprintf("ContinueOnError: the unresolvable `$ref` %q is not left in place", ref)
+	}
+	return ""
+}
+
+func oracleC08Root(r *rng, n int, tier string) *oracleResult {
+	exQuiet()
+	res := &oracleResult{Stats: map[string]int{}}
+	for _, sh := range []string{"self-by-name", "absolute-url", "back-ref-sibling", "back-ref-subdir"} {
+		in := rootRefusedInput{Shape: sh}
+		res.Evaluations++
+		res.Distinct++
+		if msg := checkRootRefused(in); msg != "" {
+			res.Stats["fail:root-refused"]++
+			if len(res.Failures) < 2 {
+				res.Failures = append(res.Failures, failure{Property: "C08", What: msg, Shape: "silent-failure:root-named-and-refused", Input: in})
+			}
+		}
+	}
+	res.Samples = []interface{}{rootRefusedInput{Shape: "self-by-name"}}
+	return res
+}
+
+func init() {
+	oracles["C08root"] = oracleC08Root
+	replays["C08root"] = func(input json.RawMessage) *oracleResult {
+		var in rootRefusedInput
+		res := &oracleResult{Stats: map[string]int{}, Evaluations: 1}
+		if json.Unmarshal(input, &in) != nil {
+			return res
+		}
+		if msg := checkRootRefused(in); msg != "" {
+			res.Failures = append(res.Failures, failure{Property: "C08", What: msg, Shape: "silent-failure:root-named-and-refused", Input: in})
+		}
+		return res
+	}
+}
